@@ -1,7 +1,7 @@
 //@ unit U-JOIN
 //@ props C16
 //@ verus-args --rlimit 100 --triggers-mode silent
-//@ config MDB_SHARD_MIN_TARGET_SIZE
+//@ config MDB_SHARD_MIN_TARGET_SIZE MDB_SHARD_LOCAL_CACHE_EXPIRATION_SECS
 //@ gsubst `dyn Client + Send + Sync` => `VxClient` :: R11 stub type for the cas_client trait object (never called by the functions under proof)
 //@ gsubst `dyn ProgressUpdater` => `VxProgressUpdater` :: R11 stub type for the progress trait object (never called by the functions under proof)
 #![feature(allocator_api)]
@@ -102,6 +102,8 @@ pub fn vx_async_block<T>() -> VxFuture<T> { unimplemented!() }
 pub assume_specification<T: std::default::Default> [std::mem::take] (x: &mut T) -> (r: T)
     ensures r == *old(x), call_ensures(T::default, (), *final(x));
 
+pub assume_specification<T> [std::mem::drop] (_0: T);
+
 // std specs that the unchanged code does not need; they only keep "swallowing" edits of the source decidable (exit 1, not 2)
 pub assume_specification<T, E> [std::result::Result::<T, E>::unwrap_or] (r: std::result::Result<T, E>, default: T) -> (o: T)
     ensures o == (match r { Ok(v) => v, Err(_) => default });
@@ -120,6 +122,19 @@ impl From<JoinError> for DataProcessingError {
 impl From<MDBShardError> for DataProcessingError {
     #[verifier::external_body]
     fn from(e: MDBShardError) -> DataProcessingError { unimplemented!() }
+}
+#[verifier::external_body]
+pub struct CasClientError { _p: () }
+/// stands for std::io::Error (result of the outlined `std::fs::read`)
+#[verifier::external_body]
+pub struct VxIoError { _p: () }
+impl From<CasClientError> for DataProcessingError {
+    #[verifier::external_body]
+    fn from(e: CasClientError) -> DataProcessingError { unimplemented!() }
+}
+impl From<VxIoError> for DataProcessingError {
+    #[verifier::external_body]
+    fn from(e: VxIoError) -> DataProcessingError { unimplemented!() }
 }
 pub type Result<T> = std::result::Result<T, DataProcessingError>;
 
@@ -164,13 +179,52 @@ proof fn vx_mark_shards_stored(si: &SessionShardInterface, spawned: Multiset<Tas
     ensures si.vx_shards_stored(), all_ok(spawned),
 {}
 
-// ---- other dependency stubs (R11), none has a contract unless stated -----------------------------------------------
+// ---- store capabilities (task bodies) -------------------------------------------------------------------------------------
+// Uninterpreted predicates used as capabilities: ONLY a successful `upload_shard` / `put` of the client stub establishes them,
+// and the calls that make a shard visible to later sessions (export into the cache directory, `register_shards`) require
+// them.  (Conservative for the same reason as the markers: reading them as `true` satisfies every assumed contract.)
+pub struct MerkleHash(pub [u64; 4]);
+/// the shard with this hash has been accepted by the store in this task
+pub uninterp spec fn vx_shard_in_store(h: MerkleHash) -> bool;
+/// the xorb with this hash has been accepted by the store in this task
+pub uninterp spec fn vx_xorb_in_store(h: MerkleHash) -> bool;
 pub struct VxClient { _p: () }
+impl VxClient {
+    /// cas_client::RegistrationClient::upload_shard
+    #[verifier::external_body]
+    pub fn upload_shard(&self, prefix: &str, hash: &MerkleHash, force_sync: bool, shard_data: &[u8], salt: &[u8; 32]) -> (r: std::result::Result<bool, CasClientError>)
+        ensures r is Ok ==> vx_shard_in_store(*hash)
+    { unimplemented!() }
+    /// cas_client::UploadClient::put
+    #[verifier::external_body]
+    pub fn put(&self, prefix: &str, hash: &MerkleHash, data: Vec<u8>, chunk_and_boundaries: Vec<(MerkleHash, u32)>) -> (r: std::result::Result<usize, CasClientError>)
+        ensures r matches Ok(n) ==> vx_xorb_in_store(*hash) && n <= counter_bound()
+    { unimplemented!() }
+}
+pub struct VxPathBuf { _p: () }
+pub struct MDBShardFile { pub shard_hash: MerkleHash, pub path: VxPathBuf }
+impl MDBShardFile {
+    /// writes a copy of the shard into `target_directory` (the local cache): from then on later sessions dedup against it
+    #[verifier::external_body]
+    pub fn export_with_expiration(&self, target_directory: &VxPath, shard_valid_for: Duration) -> (r: std::result::Result<Arc<MDBShardFile>, MDBShardError>)
+        requires /*@C16*/ vx_shard_in_store(self.shard_hash),
+        ensures r matches Ok(n) ==> n.shard_hash == self.shard_hash,
+    { unimplemented!() }
+}
+pub struct Duration { _p: () }
+impl Duration { #[verifier::external_body] pub fn from_secs(s: u64) -> Duration { unimplemented!() } }
+/// outline (R7) of `std::fs::read(&si.path)`
+#[verifier::external_body]
+pub fn vx_fs_read(p: &VxPathBuf) -> std::result::Result<Vec<u8>, VxIoError> { unimplemented!() }
+pub uninterp spec fn spec_MDB_SHARD_LOCAL_CACHE_EXPIRATION_SECS() -> u64;
+#[verifier::external_body] pub fn MDB_SHARD_LOCAL_CACHE_EXPIRATION_SECS() -> (r: u64) ensures r == spec_MDB_SHARD_LOCAL_CACHE_EXPIRATION_SECS() { unimplemented!() }
+
+// ---- other dependency stubs (R11), none has a contract unless stated -----------------------------------------------
 pub struct VxProgressUpdater { _p: () }
+impl VxProgressUpdater { #[verifier::external_body] pub fn update(&self, increment: u64) { unimplemented!() } }
 pub struct ThreadPool { _p: () }
 pub struct TempDir { _p: () }
 pub struct VxPath { _p: () }
-pub struct MDBShardFile { _p: () }
 pub struct MDBFileInfo { _p: () }
 pub struct OwnedSemaphorePermit { _p: () }
 pub type RepoSalt = [u8; 32];
@@ -191,6 +245,7 @@ pub enum Ordering { Relaxed }
 pub struct AtomicUsize { _p: () }
 impl AtomicUsize {
     #[verifier::external_body] pub fn new(v: usize) -> Self { unimplemented!() }
+    #[verifier::external_body] pub fn fetch_add(&self, v: usize, o: Ordering) -> usize { unimplemented!() }
     #[verifier::external_body] pub fn load(&self, o: Ordering) -> (r: usize) ensures r <= counter_bound() { unimplemented!() }
 }
 
@@ -209,6 +264,11 @@ pub struct ShardFileManager { _p: () }
 impl ShardFileManager {
     #[verifier::external_body] pub fn flush(&self) -> std::result::Result<Option<VxPath>, MDBShardError> { unimplemented!() }
     #[verifier::external_body] pub fn shard_directory(&self) -> &VxPath { unimplemented!() }
+    /// makes the shards available for deduplication in this and (via the cache directory) later sessions
+    #[verifier::external_body]
+    pub fn register_shards(&self, new_shards: &[Arc<MDBShardFile>]) -> std::result::Result<(), MDBShardError>
+        requires /*@C16*/ forall|i: int| 0 <= i < new_shards@.len() ==> vx_shard_in_store((#[trigger] new_shards@[i]).shard_hash),
+    { unimplemented!() }
 }
 #[verifier::external_body]
 pub fn consolidate_shards_in_directory(session_directory: &VxPath, target_max_size: u64) -> std::result::Result<Vec<Arc<MDBShardFile>>, MDBShardError> { unimplemented!() }
@@ -260,6 +320,29 @@ impl SessionShardInterface {
         assert(/*@C16*/ shard_uploads@.len() == 0 && all_ok(pend0));
 //@ end
 }
+
+// the body of the task spawned per shard by upload_and_register_session_shards (what R16 leaves out there)
+//@ extract data/src/shard_interface.rs in `impl SessionShardInterface` region upload_and_register_session_shards
+//@ block `shard_uploads.spawn(async move {`
+//@ sig `fn upload_and_register_session_shards__task(si: Arc<MDBShardFile>, shard_prefix: String, shard_bytes_uploaded: Arc<AtomicUsize>, dry_run: bool, shard_client: Arc<VxClient>, salt: RepoSalt, upload_permit: OwnedSemaphorePermit, cache_shard_manager: Arc<ShardFileManager>) -> (ret: Result<()>)`
+//@ subst `std::fs::read(&si.path)` => `vx_fs_read(&si.path)` :: R7 outline of the file read (std::fs / PathBuf are outside Verus); result arbitrary
+//@ contract
+        ensures
+            // the task reports success only if the shard is in the store (or nothing was made visible: dry run)
+            /*@C16*/ ret is Ok ==> dry_run || vx_shard_in_store(si.shard_hash),
+//@ end
+
+// the body of the xorb upload task spawned by register_new_xorb_for_upload
+//@ extract data/src/file_upload_session.rs in `impl FileUploadSession` region register_new_xorb_for_upload
+//@ block `self.xorb_upload_tasks.lock().await.spawn(async move {`
+//@ sig `fn register_new_xorb_for_upload__task(session: Arc<FileUploadSession>, cas_prefix: String, xorb_hash: MerkleHash, xorb_data: Vec<u8>, chunks_and_boundaries: Vec<(MerkleHash, u32)>, upload_permit: OwnedSemaphorePermit) -> (ret: Result<()>)`
+//@ contract
+        ensures
+            /*@C16*/ ret is Ok ==> vx_xorb_in_store(xorb_hash),
+//@ before `session.deduplication_metrics.lock()`
+            // bytes are counted as uploaded only after a successful put
+            assert(/*@C16*/ vx_xorb_in_store(xorb_hash));
+//@ end
 
 impl FileUploadSession {
     #[verifier::external_body]
